@@ -171,7 +171,8 @@ Inductive path := PTop | PSql | PSub (f : string) | PTesting.
 Inductive form := FA | FS | FB.
      (* FA: importlib.import_module(p)  = the module `from p import x` looks in
         FS: `import p as m`;  FB: `from <parent of p> import <last component of p>` *)
-Inductive exitkind := XNormal | XRaise | XSessionRaise.
+Inductive exitkind := XNormal | XRaise | XSessionRaise | XBaseRaise.
+     (* XBaseRaise: the block is left by a BaseException that is not an Exception (KeyboardInterrupt, SystemExit, pytest.skip) *)
 
 Inductive event :=
 | Activate (e : string) (c : option nat) (kv : list (string * nat))
@@ -500,9 +501,11 @@ Definition final (s : state) (evs : list event) : state := snd (run s evs).
 
 Record sstate := mkS {
   active : option (string * option nat);       (* engine and connection of the activation in force *)
-  hist : list (string * option nat)            (* every (engine, connection) activated so far *)
+  hist : list (string * option nat);           (* every (engine, connection) activated so far *)
+  lastgoc : option string                      (* the engine under which getOrCreate was last called: the process's current
+                                                  session, if any, is that engine's *)
 }.
-Definition sinit : sstate := mkS None [].
+Definition sinit : sstate := mkS None [] None.
 
 Definition base_view (p : path) : eobs :=
   if installed en then
@@ -531,8 +534,9 @@ Definition tainted (h : list (string * option nat)) : bool := existsb (fun p => 
 
 Definition snext (ss : sstate) (ev : event) : sstate :=
   match ev with
-  | Activate e c _ | CtxEnter e c _ => mkS (Some (e, c)) (hist ss ++ [(e, c)])
-  | Deactivate | CtxExit _ => mkS None (hist ss)
+  | Activate e c _ | CtxEnter e c _ => mkS (Some (e, c)) (hist ss ++ [(e, c)]) (lastgoc ss)
+  | Deactivate | CtxExit _ => mkS None (hist ss) (lastgoc ss)
+  | GetOrCreate => match active ss with Some (e, _) => mkS (active ss) (hist ss) (Some e) | None => ss end
   | _ => ss
   end.
 
@@ -568,7 +572,13 @@ Definition accept (ss : sstate) (ev : event) (o : eobs) (cfg : list (string * na
       | Some (e, c) =>
           tainted (hist ss) ||
           match o with
-          | GSession e' c' => String.eqb e e' && ((mem e (f_noconn fa) && optnat_eqb c' None) || in_hist e c' (hist ss))
+          | GSession e' c' =>
+              String.eqb e e' && ((mem e (f_noconn fa) && optnat_eqb c' None) || in_hist e c' (hist ss))
+              (* a connection given now is the session's, unless the current session already is this engine's (reuse) *)
+              && match c with
+                 | Some k => opt_eqb (lastgoc ss) (Some e) || mem e (f_noconn fa) || optnat_eqb c' (Some k)
+                 | None => true
+                 end
           | _ => false
           end
       | None => match o with
